@@ -318,7 +318,24 @@ impl Cli {
             }
             3 => {
                 what = "unknown-problem";
-                let bp = BAD_PROBLEMS[v % BAD_PROBLEMS.len()].to_string();
+                // fixed near misses, and near misses derived from the valid name of this case
+                let valid = problem_string(c.q, c.sem, c.case_mask);
+                let derived = [
+                    format!("{}-", valid),
+                    format!("{}-x", valid),
+                    format!("{}-{}", valid, c.sem.name()),
+                    format!("-{}", valid),
+                    format!("{} ", valid),
+                    valid.replace('-', "--"),
+                    valid.replace('-', "_"),
+                    valid.replace('-', ""),
+                    format!("{}X", valid),
+                    format!("X{}", valid),
+                    valid.replace('-', " - "),
+                    format!("{}-{}", valid, valid),
+                ];
+                let all = BAD_PROBLEMS.len() + derived.len();
+                let bp = if v % all < BAD_PROBLEMS.len() { BAD_PROBLEMS[v % all].to_string() } else { derived[v % all - BAD_PROBLEMS.len()].clone() };
                 post = Box::new(move |args: &mut Vec<String>| {
                     if let Some(i) = args.iter().position(|x| x == "-p") {
                         args[i + 1] = bp.clone();
